@@ -264,7 +264,7 @@ func c02SendGate(c *Ctx, m *Module) {
 	r.Check("C02.send-gate", "uploadReportContents is not used as a value", "-", len(m.usesOfFunc(urc)) == 0 && len(m.usesOfFunc(ur)) == 0, "the upload functions must not escape as function values")
 	// (c) in Run, uploadReport's argument is an element of reports()'s first result
 	for _, cs := range callsIn(run, "(*internal/upload.uploader).uploadReport") {
-		arg := cs.Common().Args[1]
+		arg := argsOf(cs)[1]
 		okSrc := false
 		d := describe(arg)
 		if strings.Contains(d, "(*internal/upload.uploader).reports(") && strings.Contains(d, "#0") {
@@ -350,7 +350,7 @@ func c02UploadOK(c *Ctx, m *Module) {
 	// identify the two exclusiveWrite calls and the upload one (name without "local." prefix)
 	var uploadWrite, localWrite ssa.CallInstruction
 	for _, cs := range callsIn(fn, "internal/upload.exclusiveWrite") {
-		d := describe(cs.Common().Args[0])
+		d := describe(argsOf(cs)[0])
 		if strings.Contains(d, `"local."`) {
 			localWrite = cs
 		} else {
@@ -389,7 +389,7 @@ func c02UploadOK(c *Ctx, m *Module) {
 
 	// tooOld(expiryDate, u.startTime)
 	for _, cs := range callsIn(fn, "(*internal/upload.uploader).tooOld") {
-		a := cs.Common().Args
+		a := argsOf(cs)
 		n1, _ := c02Namer(strip(a[2]))
 		r.Check("C02.uploadOK", "createReport/tooOld arguments", m.Pos(cs.Pos()), a[1] == fn.Params[2] && n1 == "startTime",
 			"tooOld must be asked about this report's week and the run's start time; got "+describe(a[1])+", "+describe(a[2]))
@@ -400,9 +400,9 @@ func c02UploadOK(c *Ctx, m *Module) {
 		fb2 := newFormulaBuilder()
 		fb2.namer = func(v ssa.Value) (string, bool) {
 			if c, ok := v.(*ssa.Call); ok && calleeName(&c.Call) == "(time.Time).Sub" {
-				a, b := c.Call.Args[0], c.Call.Args[1]
+				a, b := argsOf(c)[0], argsOf(c)[1]
 				if a == to.Params[2] && strings.HasPrefix(describe(b), "time.Parse(") && strings.HasSuffix(describe(b), "#0") {
-					if pc, ok := strip(b).(*ssa.Extract).Tuple.(*ssa.Call); ok && pc.Call.Args[1] == to.Params[1] {
+					if pc, ok := strip(b).(*ssa.Extract).Tuple.(*ssa.Call); ok && argsOf(pc)[1] == to.Params[1] {
 						return "age", true
 					}
 				}
@@ -432,7 +432,7 @@ func c02UploadOK(c *Ctx, m *Module) {
 			fmt.Sprintf("tooOld(date, start) must be: date parses ∧ start − date > distantPast (strict), %d worlds; %s", nw, why))
 		// time.Parse layout is DateOnly
 		for _, cs := range callsIn(to, "time.Parse") {
-			k, _ := constOf(cs.Common().Args[0])
+			k, _ := constOf(argsOf(cs)[0])
 			r.Check("C02.uploadOK", "tooOld/date layout", m.Pos(cs.Pos()), k == m.ConstVal("internal/telemetry", "DateOnly"), "week dates are parsed with telemetry.DateOnly")
 		}
 		// distantPast initialiser = 21 days and never reassigned
@@ -467,7 +467,7 @@ func c02UploadOK(c *Ctx, m *Module) {
 				under = true
 			}
 		}
-		sameName := describe(ret.Results[0]) == describe(uploadWrite.Common().Args[0])
+		sameName := describe(ret.Results[0]) == describe(argsOf(uploadWrite)[0])
 		r.Check("C02.uploadOK", "createReport/non-empty result", m.Pos(ret.Pos()), under && sameName,
 			"createReport may return a file name only under uploadOK and it must be the name written by exclusiveWrite(<week>.json); returns "+describe(ret.Results[0]))
 	}
@@ -479,8 +479,8 @@ func c02UploadOK(c *Ctx, m *Module) {
 		if cs.Parent() != reports {
 			continue
 		}
-		mp, key, ok := mapLookup(cs.Common().Args[1])
-		r.Check("C02.earliest", "reports/createReport start argument", m.Pos(cs.Pos()), ok, "start must be earliest[expiry]; got "+describe(cs.Common().Args[1]))
+		mp, key, ok := mapLookup(argsOf(cs)[1])
+		r.Check("C02.earliest", "reports/createReport start argument", m.Pos(cs.Pos()), ok, "start must be earliest[expiry]; got "+describe(argsOf(cs)[1]))
 		if !ok {
 			continue
 		}
@@ -829,7 +829,7 @@ func c02SetMode(c *Ctx, m *Module) {
 		fb := newFormulaBuilder()
 		trimmed := ""
 		fb.namer = func(v ssa.Value) (string, bool) {
-			if c, ok := v.(*ssa.Call); ok && calleeName(&c.Call) == "strings.TrimSpace" && c.Call.Args[0] == fn.Params[1] {
+			if c, ok := v.(*ssa.Call); ok && calleeName(&c.Call) == "strings.TrimSpace" && argsOf(c)[0] == fn.Params[1] {
 				trimmed = "m"
 				return "m", true
 			}
@@ -847,10 +847,10 @@ func c02SetMode(c *Ctx, m *Module) {
 	dateOnly := m.ConstVal("internal/telemetry", "DateOnly")
 	var wsep, wlayout string
 	for _, cs := range callsIn(fn, "(time.Time).Format") {
-		wlayout, _ = constOf(cs.Common().Args[1])
+		wlayout, _ = constOf(argsOf(cs)[1])
 	}
 	for _, cs := range callsIn(fn, "os.WriteFile") {
-		d := describe(cs.Common().Args[1])
+		d := describe(argsOf(cs)[1])
 		// conv<[]byte>((m + " ") + asof)
 		if i := strings.Index(d, ` + "`); i >= 0 {
 			rest := d[i+4:]
@@ -864,10 +864,10 @@ func c02SetMode(c *Ctx, m *Module) {
 	rd := m.Func("internal/telemetry", "Dir.Mode")
 	var rsep, rlayout string
 	for _, cs := range callsIn(rd, "strings.Index", "strings.Cut", "strings.IndexByte") {
-		rsep, _ = constOf(cs.Common().Args[1])
+		rsep, _ = constOf(argsOf(cs)[1])
 	}
 	for _, cs := range callsIn(rd, "time.Parse") {
-		rlayout, _ = constOf(cs.Common().Args[0])
+		rlayout, _ = constOf(argsOf(cs)[0])
 	}
 	r.Check("C02.setmode", "mode file/date layout agreement", m.Pos(rd.Pos()), wlayout == dateOnly && rlayout == dateOnly, fmt.Sprintf("writer layout %q, reader layout %q, DateOnly %q", wlayout, rlayout, dateOnly))
 	r.Check("C02.setmode", "mode file/separator agreement", m.Pos(rd.Pos()), wsep != "" && wsep == rsep, fmt.Sprintf("writer separator %q, reader separator %q", wsep, rsep))
